@@ -451,6 +451,82 @@ pub fn child(args: &[String]) -> i32 {
                 }
             }
         }
+        "i" => {
+            // digit-like tokens among number words (a recogniser hands over figures, superscripts, fractions, digits
+            // of other scripts): every text of <= 3 tokens over 9 class words + 16 digit-like tokens that contains one
+            // of the latter, and of 4 tokens over 4 words + 8 of them
+            let c = vocab::cls(l);
+            let exotic: Vec<String> = ["3", "0", "\u{0663}", "\u{b2}", "\u{bd}", "\u{2167}", "\u{2460}", "\u{ff13}", "\u{0969}", "\u{4e09}", "\u{1d7d1}", "1e5", "0x1F", "3.5", "1\u{2044}2", "12\u{b2}"].iter().map(|x| x.to_string()).collect();
+            let words: Vec<String> = vec![c.one.clone(), l.sep().to_string(), c.ordinary.clone(), c.hundred.clone(), c.unit.clone(), c.conj.clone(), c.tens.clone(), c.zero.clone(), c.small_ord.clone()];
+            for (nw, ne, k) in [(9usize, 16usize, 3usize), (4, 8, 4)] {
+                let mut a: Vec<String> = exotic.iter().take(ne).cloned().collect();
+                a.extend(words.iter().take(nw).cloned());
+                let n = a.len();
+                let mut buf = String::new();
+                for first in 0..n {
+                    if first % nshards != shard {
+                        continue;
+                    }
+                    for_each_seq(n, k, first, &mut |idx| {
+                        if !idx.iter().any(|&i| i < ne) || (k == 4 && idx.len() < 4) {
+                            return;
+                        }
+                        buf.clear();
+                        for (j, &i) in idx.iter().enumerate() {
+                            if j > 0 {
+                                buf.push(' ');
+                            }
+                            buf.push_str(&a[i]);
+                        }
+                        job.one(&buf, false);
+                    });
+                }
+            }
+        }
+        "j" => {
+            // word sequences: every text of <= k words over the first 16 class symbols (one, unit, tens, ordinary, zero,
+            // hundred, conjunction, comma, ten, teen, thousand, linking, small ordinal, separator, full stop, second
+            // unit), and one word deeper over the first 10
+            let cls: Vec<String> = vocab::sigma_cls(l).into_iter().take(16).collect();
+            let (k_wide, k_deep) = tier.pick((4usize, 5usize), (5, 6));
+            job.thrs = &T_B;
+            for (a, k, min_len) in [(&cls[..], k_wide, 1usize), (&cls[..10], k_deep, k_deep)] {
+                let n = a.len();
+                let mut buf = String::new();
+                for first in 0..n {
+                    if first % nshards != shard {
+                        continue;
+                    }
+                    for_each_seq(n, k, first, &mut |idx| {
+                        if idx.len() < min_len {
+                            return;
+                        }
+                        buf.clear();
+                        for (j, &i) in idx.iter().enumerate() {
+                            if j > 0 {
+                                buf.push(' ');
+                            }
+                            buf.push_str(&a[i]);
+                        }
+                        job.one(&buf, false);
+                    });
+                }
+            }
+            // leading-zero runs of every length up to 12 in front of every word of the full vocabulary, alone and
+            // followed by a unit
+            if shard == 0 {
+                let c = vocab::cls(l);
+                let mut z = String::new();
+                for _ in 1..=12 {
+                    z.push_str(&c.zero);
+                    z.push(' ');
+                    for w in vocab::sigma_full(l) {
+                        job.one(&format!("{z}{w}"), false);
+                        job.one(&format!("{z}{w} {}", c.unit), false);
+                    }
+                }
+            }
+        }
         "g" => {
             // very large numbers: every sequence of <= k words over nine, tens, hundred, one and the scale words
             // (values beyond u64 / u128 / f64 precision), at every threshold of the list
@@ -561,13 +637,16 @@ pub fn run(tier: Tier) -> i32 {
     let exe = std::env::current_exe().unwrap().to_string_lossy().to_string();
     let mut jobs: Vec<Vec<String>> = vec![];
     for l in langs::ALL {
-        for part in ["a", "b", "c", "d", "g", "h"] {
+        for part in ["a", "b", "c", "d", "g", "h", "i", "j"] {
             let nsh = match (part, tier) {
                 ("a", Tier::Quick) => 4,
                 ("a", Tier::Thorough) => 16,
                 ("b", Tier::Quick) => 2,
                 ("b", Tier::Thorough) => 16,
                 ("h", _) => 1,
+                ("i", _) => 2,
+                ("j", Tier::Quick) => 4,
+                ("j", Tier::Thorough) => 16,
                 ("g", Tier::Quick) => 2,
                 ("g", Tier::Thorough) => 8,
                 ("d", Tier::Quick) => 2,
@@ -710,7 +789,7 @@ pub fn run(tier: Tier) -> i32 {
     acc.nontrivial = acc.states;
     let cov = json!({
         "exhaustive": true,
-        "rule": "(a) every string of length <= k over 21 characters; (b) every sequence of <= k atoms over the full vocabulary plus {\"\",-,--,-a,a-} joined by space and by hyphen; (c) a fixed smoke list of long inputs (NOT an exhaustive space); (h) every text of <= 4 words over {a word-like string literal of the current source tree that no alphabet knows, ordinary word, one, unit, tens, ambiguous words} containing that literal; (g) every sequence of <= 4 (thorough 5) words over nine, tens, hundred, one and the scale words; (d) every token stream of <= k tokens over class words and compound fragments, each plain, '~' or '!' hinted, through find_numbers, find_numbers_iter and replace_numbers_in_stream; each x 7 languages x {text2digits, replace_numbers_in_text, find_numbers, find_numbers_iter drained, replace_numbers_in_stream} x thresholds; get_interpreter_for on the strings of (a)",
+        "rule": "(a) every string of length <= k over 21 characters; (b) every sequence of <= k atoms over the full vocabulary plus {\"\",-,--,-a,a-} joined by space and by hyphen; (c) a fixed smoke list of long inputs (NOT an exhaustive space); (h) every text of <= 4 words over {a word-like string literal of the current source tree that no alphabet knows, ordinary word, one, unit, tens, ambiguous words} containing that literal; (g) every sequence of <= 4 (thorough 5) words over nine, tens, hundred, one and the scale words; (i) every text of <= 3 tokens over 9 class words + 16 digit-like tokens (ASCII figures, Arabic-Indic / Devanagari / fullwidth / mathematical digits, superscripts, vulgar fractions, Roman and circled numerals, a CJK numeral, 1e5, 0x1F, 3.5) containing one of the latter, and of 4 tokens over 4 words + 8 of them; (j) every text of <= 4 (thorough 5) words over the first 16 class symbols and of 5 (6) words over the first 10, plus leading-zero runs of 1..=12 in front of every word of the full vocabulary; (d) every token stream of <= k tokens over class words and compound fragments, each plain, '~' or '!' hinted, through find_numbers, find_numbers_iter and replace_numbers_in_stream; each x 7 languages x {text2digits, replace_numbers_in_text, find_numbers, find_numbers_iter drained, replace_numbers_in_stream} x thresholds; get_interpreter_for on the strings of (a)",
         "characters": CHARS.iter().map(|c| format!("U+{:04X}", *c as u32)).collect::<Vec<_>>(),
         "bounds": {"a_max_len": tier.pick(4, 6), "a_len6_thresholds": "0, NaN only", "b_max_atoms": tier.pick(2, 3), "c_repetitions": tier.pick(3000, 20_000), "e_tokens": deep_n, "e_stack_kib": deep_kib, "e_short_streams": "dev-profile build: every stream of <= 3 of 11 class words (<= 4 of the first 7) per language x thresholds {0, 10, 50, 1000, inf, NaN, -1} x 4 entry points"},
         "thresholds": THRS.iter().map(|t| thr_name(*t)).collect::<Vec<_>>(),
